@@ -114,7 +114,7 @@ def generate(seed, tier):
     r = random.Random(f'C01gen:{seed}')
     lossy = r.random() < 0.25
     slow = r.random() < (0.15 if tier == 'quick' else 0.3)
-    o = {'conf': {'profile': r.choice(['fast', 'fast', 'mid']), 'entries': 3, 'slow_dh': slow}, 'both_initiate': r.random() < 0.3,
+    o = {'conf': {'profile': r.choice(['fast', 'fast', 'mid']), 'entries': 3, 'slow_dh': slow, 'mixed_family': 0.1}, 'both_initiate': r.random() < 0.3,
          'packets': r.randint(2, 6), 'duration': r.choice([30, 60, 100]), 'forced': 3, 'forced_kinds': ['expire_soft', 'jump_rekey'],
          'faults': ([k for k in ('drop', 'dup', 'reorder') if r.random() < 0.5] or ['drop']) if lossy else []}
     sc = workload.pair_scenario(seed, PROP, o)
